@@ -803,7 +803,8 @@ fn enc_encode(ch: &mut Chooser, ctx: &mut Ctx, obj: &mut dyn DynEncoder, st: &mu
                 "result" => "result",
                 _ => "drop",
             };
-            let extra = enc_history_props(ctx, st, &EncCall::Encode, &Outcome::Panic);
+            // history dependence is only judged for the encode call itself (the replay does not probe results)
+            let extra = if stage == "encode" { enc_history_props(ctx, st, &EncCall::Encode, &Outcome::Panic) } else { Vec::new() };
             return report_panic_x(ctx, &st.kind.name(), op, &format!("encode() [{stage}] with {fill}/{k} shards"), st.failed_ever, &msg, &extra);
         }
     };
@@ -1415,7 +1416,7 @@ fn dec_decode(ch: &mut Chooser, ctx: &mut Ctx, obj: &mut dyn DynDecoder, st: &mu
                 "result" => "result",
                 _ => "drop",
             };
-            let extra = dec_history_props(ctx, st, &DecCall::Decode, &Outcome::Panic);
+            let extra = if stage == "decode" { dec_history_props(ctx, st, &DecCall::Decode, &Outcome::Panic) } else { Vec::new() };
             return report_panic_x(ctx, &st.kind.name(), op, &format!("decode() [{stage}] with {}+{} of {k} shards", st.n_o, st.n_r), st.failed_ever, &msg, &extra);
         }
     };
